@@ -178,6 +178,20 @@ func init() {
 		op := func() *Obs { return w.Token(f, w.AuthFor("A")) }
 		return []func() *Obs{op, op}, true
 	}))
+	registerScenario(c19APIScenario("poll-poll-oidc", oidSess, func(w *World) ([]func() *Obs, bool) {
+		do := w.DeviceAuth(url.Values{"client_id": {"A"}, "scope": {"openid offline a"}}, w.AuthFor("A"))
+		w.AcceptUserCode(do.Str("user_code"), true)
+		// the verification page creates the OpenID Connect session when the user logs in (documented integrator duty)
+		if sig, err := w.Dev.UserCodeSignature(nil, do.Str("user_code")); err == nil {
+			if req, ok := w.Mem.DeviceAuths[sig]; ok {
+				_, _, dsig := c06Split2(do.Str("device_code"))
+				w.Mem.CreateOpenIDConnectSession(context.Background(), dsig, req)
+			}
+		}
+		f := url.Values{"grant_type": {"urn:ietf:params:oauth:grant-type:device_code"}, "device_code": {do.Str("device_code")}}
+		op := func() *Obs { return w.Token(f, w.AuthFor("A")) }
+		return []func() *Obs{op, op}, true
+	}))
 	registerScenario(c19APIScenario("deviceauth-poll", def, func(w *World) ([]func() *Obs, bool) {
 		do := w.DeviceAuth(url.Values{"client_id": {"A"}, "scope": {"offline a"}}, w.AuthFor("A"))
 		w.AcceptUserCode(do.Str("user_code"), true)
@@ -349,6 +363,9 @@ func init() {
 				sb := bs4
 				if pts := schedPoints(schedCase{Scenario: n, LockPoints: false}); binom(pts, pts/2) <= unboundedLimit {
 					sb = -1
+				}
+				if r.Quick() && n == "poll-poll-oidc" {
+					sb = bs4 // its non-preemptive execution is short (the second poll is refused early) and under-estimates the tree: 96 k interleavings
 				}
 				storageBounds[n] = sb
 				jobs = append(jobs, schedShards(schedCase{Scenario: n, LockPoints: false, Bound: sb, MaxExecs: 300000})...)
